@@ -84,7 +84,7 @@ def run(ctx):
     # ---- the composed model: whole programs over the full primitive set (TexVM.tla) ------------
     texvm_consistency(ctx, "cond")
     texvm_suite(ctx)
-    texvm_part(ctx, 6000 if ctx.quick else 120000, 707)
+    texvm_part(ctx, 6000 if ctx.quick else 80000, 707)
 
 
 def selftest(ctx):
